@@ -38,6 +38,7 @@ type dsMode struct {
 }
 
 type annRec struct {
+	refused  bool // the application's allow filter said no to this one
 	pub      *PubNode
 	c        cid.Cid
 	idx      int
@@ -87,6 +88,9 @@ type dsListener struct {
 }
 
 type dsWorld struct {
+	allowFilter    bool
+	denyNow        map[peer.ID]bool
+	allowSaid      map[int64]bool // by calling goroutine: the filter's last answer
 	straightReturn bool
 	atCloseReturn  string
 	lksLate        bool
@@ -275,7 +279,21 @@ func runDsync(r *simkit.Run, c Cfg, mode dsMode) {
 	if tp.Chance(1, 3, "seg") {
 		seg = int64(tp.Range(1, 3, "segV"))
 	}
-	sopts := []dagsync.Option{dagsync.RecvAnnounce(""), dagsync.SegmentDepthLimit(seg), dagsync.IdleHandlerTTL(idle)}
+	var ropts []announce.Option
+	if mode.name == "c08" && !mode.directed && tp.Chance(1, 4, "allowFilter?") {
+		// the application filters announcements by publisher, and changes
+		// its mind now and then: an announcement it refuses does nothing,
+		// and does not stand in the way of the same head announced again
+		// once the publisher is allowed
+		d.allowFilter = true
+		d.denyNow, d.allowSaid = map[peer.ID]bool{}, map[int64]bool{}
+		ropts = append(ropts, announce.WithAllowPeer(func(p peer.ID) bool {
+			ok := !d.denyNow[p]
+			d.allowSaid[simkit.CurGID()] = ok
+			return ok
+		}))
+	}
+	sopts := []dagsync.Option{dagsync.RecvAnnounce("", ropts...), dagsync.SegmentDepthLimit(seg), dagsync.IdleHandlerTTL(idle)}
 	if d.limit > 0 {
 		sopts = append(sopts, dagsync.MaxAsyncConcurrency(d.limit))
 	}
@@ -359,11 +377,26 @@ func runDsync(r *simkit.Run, c Cfg, mode dsMode) {
 		r.Go("ann."+pub.Name, func(t *simkit.Task) {
 			for i := 0; i < n; i++ {
 				t.Yield("op")
-				head := pub.Extend(1 + tp.Choose(2, "extendBy"))
+				var head cid.Cid
+				if d.allowFilter && i > 0 && d.denyNow[pub.Ident.ID] {
+					// allowed again: the head that was refused is announced
+					// once more (there is nothing new to announce)
+					head = pub.Head()
+					d.denyNow[pub.Ident.ID] = false
+					r.Probe("refused-head-announced-again-once-allowed")
+				} else {
+					head = pub.Extend(1 + tp.Choose(2, "extendBy"))
+					if d.allowFilter {
+						d.denyNow[pub.Ident.ID] = i < n-1 && tp.Chance(1, 3, "denyNow")
+					}
+				}
 				a := &annRec{pub: pub, c: head, idx: len(pub.Ads) - 1}
 				d.anns = append(d.anns, a)
 				t.Logf("Announce(%s)", w.CidName(head))
 				a.err = d.sub.Sub.Announce(bg, head, pub.AddrInfo())
+				if d.allowFilter {
+					a.refused = !d.allowSaid[simkit.CurGID()]
+				}
 				a.returned = true
 				a.step = r.Step()
 				t.Logf("Announce(%s) -> %v", w.CidName(head), a.err)
@@ -1212,7 +1245,7 @@ func (d *dsWorld) finalChecks() {
 		// the latest announcement is acted on
 		var last *annRec
 		for _, a := range d.anns {
-			if a.pub == pub && a.returned && a.err == nil {
+			if a.pub == pub && a.returned && a.err == nil && !a.refused {
 				last = a
 			}
 		}
